@@ -2927,9 +2927,12 @@ bus_connection_be_monitor (DBusConnection  *connection,
       return FALSE;
     }
 
-  for (iter = _dbus_list_get_first_link (&tmp);
+  /* Newest first, so that the unique name goes last, as when a connection
+   * disconnects: while the other names are given up the connection can
+   * still be identified as the destination of its NameLost signals. */
+  for (iter = _dbus_list_get_last_link (&tmp);
       iter != NULL;
-      iter = _dbus_list_get_next_link (&tmp, iter))
+      iter = _dbus_list_get_prev_link (&tmp, iter))
     {
       BusService *service = iter->data;
 
